@@ -137,7 +137,8 @@ class RewriterConfig : public DefaultRewriterConfig {
 public:
     RewriterConfig(ArithLogic & logic, Pred && pred) : logic(logic), pred(std::move(pred)) {}
 
-    bool previsit(PTRef term) override { return logic.hasSortBool(term) and not logic.isIte(term); }
+    // Boolean terms also occur below terms of other sorts (arguments of uninterpreted functions): descend everywhere
+    bool previsit(PTRef term) override { return not logic.isIte(term); }
 
     PTRef rewrite(PTRef term) override {
         if (logic.isNumEq(term) and pred(term)) {
